@@ -1137,6 +1137,13 @@ def pre_gate(chk: Check) -> None:
     common.translation_gate(chk, py2lean_vecproto, "Gen/VecProtoGen.lean",
                             ["Gen.VecProtoGen", "Proofs.VecProtoGenEq", "Props.C13"],
                             "call protocol: guards, _state assignments, timeouts, _raise_if_errors, wrappers, close")
+    # the WORKER side of the error protocol: `_async_worker`'s except / finally skeleton and `_survives_pickling` as an
+    # ordered effect list (Gen/WorkerErrGen.lean), generated = `Worker.errorPath` (Proofs/WorkerErrGenEq.lean), and
+    # "announced => flushed at every kill point", "what is put survives pickling" over it (`C13_source_translation_worker_*`)
+    import py2lean_workererr
+    common.translation_gate(chk, py2lean_workererr, "Gen/WorkerErrGen.lean",
+                            ["Gen.WorkerErrGen", "Proofs.WorkerErrGenEq", "Props.C13"],
+                            "worker error path: downgrade decision, queue put / close / join_thread, announcement, env.close order")
 
 
 # ============================================================================ check
